@@ -649,6 +649,7 @@ func registerNatives(P *Program) {
 	registerHTTPNatives(P, reg)
 	registerReflectNatives(P, reg)
 	registerThreadNatives(P, reg)
+	registerUnicodeNatives(P, reg)
 }
 
 func (m *Machine) panicString(tp targetPanic) string {
